@@ -686,7 +686,11 @@ func (rdb *RDB) get(key []byte, ctx *Context) (data []byte, err error) {
 	cachedEntry, ok := ctx.cache[string(key)]
 
 	if ok {
-		data = cachedEntry.data
+		// an entry cached by FindClosest under the searched key may describe the
+		// closest preceding key; in that case the searched key itself does not exist
+		if bytes.Equal(cachedEntry.key, key) {
+			data = cachedEntry.data
+		}
 	} else {
 		data, err = rdb.db.Get(rdb.readOptions, key)
 		if err != nil {
